@@ -311,16 +311,17 @@ def clause_model(facts, rep, tier, kinds=('free', 'pool')):
         ctr = [0]
         try:
             # start state
-            n0, cap0 = start
+            n0, cap0 = start[0], start[1]
+            keys0 = ['a', 'b', 'a'] if len(start) > 2 else KEYS       # a start state with a duplicated key
             if cap0:
                 unit = 2 if kind == 'obj' else 1
                 b = Block(M.ledger, cap0, unit)
                 for j in range(n0):
                     ctr[0] += 1
                     if kind == 'obj':
-                        b.slots[2 * j] = M.node(KEYS[j])
+                        b.slots[2 * j] = M.node(keys0[j])
                         b.slots[2 * j + 1] = M.node(val(ctr[0]))
-                        ref.append((KEYS[j], val(ctr[0])))
+                        ref.append((keys0[j], val(ctr[0])))
                     else:
                         b.slots[j] = M.node(val(ctr[0]))
                         ref.append(val(ctr[0]))
@@ -420,17 +421,24 @@ def clause_model(facts, rep, tier, kinds=('free', 'pool')):
                         ref.append((kx, val(ctr[0])))
                     elif name == 'remove':
                         k = op[1]
-                        if len([1 for kk, _ in ref if kk == k]) > 1:
-                            continue                       # which of two equal keys goes is not specified
                         r = M.call('removeMemberImpl', root, ('sv', k))
                         idx = [j for j, (kk, _) in enumerate(ref) if kk == k]
                         if bool(r) != bool(idx):
                             return 'RemoveMember(%r) returned %s, the model %s the key' % (k, r, 'has' if idx else 'does not have')
                         if idx:
-                            j = idx[0]
-                            if j != len(ref) - 1:
-                                ref[j] = ref[-1]
-                            ref.pop()
+                            # which of several equal keys goes is not specified: any of them, the tail moving into its place
+                            cands = []
+                            for j in idx:
+                                r2 = list(ref)
+                                if j != len(r2) - 1:
+                                    r2[j] = r2[-1]
+                                r2.pop()
+                                cands.append(r2)
+                            got_ = None
+                            if root.block is not None and 2 * root.length <= len(root.block.slots):
+                                got_ = [(root.block.slots[2 * j].val, root.block.slots[2 * j + 1].val) for j in range(root.length)]
+                            hit = [c for c in cands if c == got_]
+                            ref[:] = hit[0] if hit else cands[0]
                     elif name == 'erasem':
                         i, j = op[1], op[2]
                         if j > len(ref) or root.block is None:
@@ -460,6 +468,7 @@ def clause_model(facts, rep, tier, kinds=('free', 'pool')):
     obj_ops = [('add', 1), ('add', 0), ('adddup',), ('createmap',), ('destroymap',), ('clear',)] + [('remove', k) for k in ('a', 'b', 'ab', 'zz')] + \
               [('erasem', i, j) for i in range(0, 4) for j in range(i, 4)]
     starts = [(0, 0), (1, 1), (2, 2), (3, 3), (3, 16)]
+    dup_starts = [(3, 3, 'dup'), (3, 16, 'dup')]
     import itertools
     bad = None
     try:
@@ -468,7 +477,7 @@ def clause_model(facts, rep, tier, kinds=('free', 'pool')):
         if not all(n in cur['fns'] for n in need):
             raise AnalysisBroken('C12: container *Impl functions of the %s-allocator instantiation not all found' % akind)
         for kind, alphabet in (('arr', arr_ops), ('obj', obj_ops)):
-            for start in starts:
+            for start in (starts + dup_starts if kind == 'obj' else starts):
                 for with_map in ((False, True) if kind == 'obj' else (False,)):
                     for d in range(1, depth + 1):
                         for ops in itertools.product(alphabet, repeat=d):
@@ -476,7 +485,7 @@ def clause_model(facts, rep, tier, kinds=('free', 'pool')):
                             stats['seq'] += 1
                             r = run_seq(kind, start, with_map, ops)
                             if r:
-                                bad = '[%s allocator] %s with %d of capacity %d%s, operations %s: %s' % ('freeing' if akind == 'free' else 'pool', 'array' if kind == 'arr' else 'object', start[0], start[1],
+                                bad = '[%s allocator] %s with %d of capacity %d%s, operations %s: %s' % ('freeing' if akind == 'free' else 'pool', 'array' if kind == 'arr' else ('object' if len(start) < 3 else 'object {a,b,a} (duplicated key)'), start[0], start[1],
                                                                                         ' and a lookup map' if with_map else '', list(ops), r)
                                 raise Done()
     except Done:
@@ -509,6 +518,11 @@ def run(rep, tier):
         elif cfg == 'K3':
             c14.clause_e(facts, rep, ('::sse::',), min_returns=1)
     # last, so that a construct the model cannot interpret (exit 2) does not keep the rules above from reporting
+    try:
+        from .. import atptr_model
+        atptr_model.clause(get_facts('K1'), rep, tier)      # AtPointer lookups == path lookup in the model
+    except AnalysisBroken as ex:
+        rep.broken.append(str(ex))
     try:
         clause_model(get_facts('K1'), rep, tier)
     except AnalysisBroken as ex:
